@@ -195,6 +195,9 @@ class ManifestContext:
             period.start = start
             self.periods.append(period)
             start += period.duration
+        # the presentation lasts as long as all of its periods together
+        # (each call to create_period() sets it to that period's stream)
+        self.mediaDuration = start
 
     def create_all_live_periods(self,
                                 multi_period: models.MultiPeriodStream) -> None:
